@@ -1490,7 +1490,7 @@ pub fn seq_churn(seed: u64, long_ok: bool) -> (Scenario, SchedCfg) {
     }
     // the entry point each fixed receiver operates through (each has its own call to the
     // signal / epoch announcement); a plain main receiver may be a single-consumer handle
-    let uni_main = !fut && !early_drop && g.rng.chance(1, 4);
+    let uni_main = !early_drop && g.rng.chance(1, 4);
     if uni_main {
         calls.push(C::IntoSingle { h: 1 });
     }
